@@ -724,9 +724,41 @@ def _typed_equal(a, b):
 # C19 (A): parser meaning
 # ---------------------------------------------------------------------------------------------
 
+def check_c19_session_framing(an):
+    """What each real receiver (PlayerThread, bundled Client) was handed by receive_message must
+    be, per connection and direction, a prefix of the lines its peer put on the wire: nothing
+    truncated, merged, duplicated, reordered or made up, whatever the chunking and the silences
+    in between."""
+    sent = {}
+    for cid, v in an.views.items():
+        sent[(cid, 'server')] = [ln for _, ln, _ in v.c2s]      # the server side receives c2s
+        sent[(cid, 'client')] = [ln for _, ln, _ in v.s2c]
+    got = {}
+    for cid, side, msg, exc in parserec.RECV_LOG:
+        if cid is None or msg is None:
+            continue
+        got.setdefault((cid, side), []).append(msg)
+    for key in sorted(got, key=lambda k: (k[0], str(k[1]))):
+        g = got[key]
+        w = sent.get(key, [])
+        if g != w[:len(g)]:
+            i = next((j for j in range(len(g)) if j >= len(w) or g[j] != w[j]), len(w))
+            an.add('C19', 'session-framing',
+                   f'connection {key[0]}, {key[1]} side: message {i} was received as '
+                   f'{g[i]!r:.120} but the peer sent '
+                   f'{(w[i] if i < len(w) else "<nothing more>")!r:.120}',
+                   key='session-framing')
+            break
+
+
 def check_c19a(an, cov=None):
     """Every (line, value) pair the real parsers produced in this run is compared with the
     harness tokenizer's reading of the same line."""
+    try:
+        check_c19_session_framing(an)
+    except Exception as e:
+        an.add('C19', 'parser-compare', f'session framing comparison failed: '
+                                       f'{type(e).__name__}: {e}')
     for name, args, result, exc in parserec.PARSE_LOG:
         try:
             _check_parse(an, name, args, result, exc, cov)
